@@ -123,7 +123,7 @@ def virtual_bases(r):
     return [any(paths[c][b] >= 2 for c in range(n)) for b in range(n)]
 
 
-def gen_registry(rng, max_classes=8):
+def gen_registry(rng, max_classes=8, focus=None, salt=0):
     n = rng.randint(2, max_classes)
     r = gen_graph(rng, n)
     der = r.closure()
@@ -131,7 +131,7 @@ def gen_registry(rng, max_classes=8):
     for c in range(n):
         if rng.random() < 0.3 and not r.bases[c] and any(der[d][c] and d != c for d in range(n)):
             r.abstract[c] = True  # (roots only: no ambiguous final overriders under multiple inheritance)
-    nm = rng.randint(1, 3)
+    nm = rng.randint(2, 3) if focus == "C01" else rng.randint(1, 3)
     for _ in range(nm):
         ar = rng.choice([1, 1, 2, 2, 3])
         nparams = ar + rng.choice([0, 0, 1, 2])
@@ -143,7 +143,7 @@ def gen_registry(rng, max_classes=8):
             while r.bases[vp[i]] and rng.random() < 0.6:
                 vp[i] = rng.choice(r.bases[vp[i]])
         m = dict(arity=ar, nparams=nparams, positions=positions, kinds=kinds, vp=vp, defs=[],
-                 api=rng.choice(["macro", "macro", "class", "container"]))
+                 api=rng.choice(["container", "container", "container", "macro", "class"] if focus == "C03" else ["macro", "macro", "class", "container"]))
         nd = rng.randint(0, 5)
         for _ in range(nd):
             d = []
@@ -153,6 +153,23 @@ def gen_registry(rng, max_classes=8):
             if d not in m["defs"]:
                 m["defs"].append(d)
         r.methods.append(m)
+    r.salt = salt
+    if len(r.methods) >= 2 and rng.random() < (0.6 if focus == "C01" else 0.3):
+        # two methods with the same name, signature and policy, declared with the macros in nested
+        # scopes (the emitter gives them the same name): each must keep its own definitions
+        a, b = r.methods[0], r.methods[1]
+        for k in ("arity", "nparams", "positions", "kinds", "vp"):
+            b[k] = list(a[k]) if isinstance(a[k], list) else a[k]
+        a["api"] = b["api"] = "macro"
+        b["defs"] = []
+        for _ in range(rng.randint(0, 5)):
+            d = []
+            for i in range(b["arity"]):
+                acc = [c for c in range(n) if der[c][b["vp"][i]]]
+                d.append(rng.choice(acc) if rng.random() < 0.7 else b["vp"][i])
+            if d not in b["defs"]:
+                b["defs"].append(d)
+        b["twin_of"] = 0
     return r
 
 
@@ -301,6 +318,11 @@ def emit(r, rng, name, policy, reg_style, flavours, leave_out=None):
     L.append("static int g_next_result = 0;")
     NV = ["int", "double", "const std::string&"]
     exp_tables = []
+    # macro methods either get distinct names at global scope, or all the same name in successively
+    # nested namespaces (outermost first); a method with another number of parameters may also
+    # share the scope of the previous one (an overload)
+    nested = any("twin_of" in m for m in r.methods) or rng.random() < 0.3
+    ns_path, scope_nparams = [], set()
     for mi, m in enumerate(r.methods):
         ptypes, nvt = [], []
         vi = 0
@@ -315,14 +337,27 @@ def emit(r, rng, name, policy, reg_style, flavours, leave_out=None):
         key = "K%d" % mi
         if pol and m["api"] == "macro" and any(k in ("vp", "cvp", "vsp", "cvsp", "vpc", "vspc") for k in m["kinds"]):
             m["api"] = "class"  # a type with a comma cannot be passed to the macros
+        m["mname"] = m["qual"] = "meth%d" % mi
+        in_ns = False
         if m["api"] == "macro":
-            L.append("declare_method(int, meth%d, (%s)%s);" % (mi, ", ".join(ptypes), polsuffix))
-            M = "method_class(int, meth%d, (%s)%s)" % (mi, ", ".join(ptypes), polsuffix)
+            if nested:
+                if not ns_path or m["nparams"] in scope_nparams or rng.random() < 0.6:
+                    ns_path.append("ns%d" % (len(ns_path) + 1))
+                    scope_nparams = set()
+                scope_nparams.add(m["nparams"])
+                in_ns = True
+                m["mname"] = "meth"
+                m["qual"] = "::".join(ns_path) + "::meth"
+                L.append(" ".join("namespace %s {" % x for x in ns_path))
+            L.append("declare_method(int, %s, (%s)%s);" % (m["mname"], ", ".join(ptypes), polsuffix))
+            M = "method_class(int, %s, (%s)%s)" % (m["mname"], ", ".join(ptypes), polsuffix)
         else:
             L.append("struct %s;" % key)
             M = "method<%s, int(%s)%s>" % (key, ", ".join(ptypes), polsuffix)
         L.append("using M%d = %s;" % (mi, M))
         m["M"] = "M%d" % mi
+        cont_flavour = ["next<>", "own-next-member", "use_next<>", "own-next-member", "no-next"][(getattr(r, "salt", 0) + mi) % 5]
+        m["no_next"] = m["api"] == "container" and cont_flavour == "no-next"
         for di, d in enumerate(m["defs"]):
             dtypes = []
             vi = 0
@@ -366,17 +401,28 @@ def emit(r, rng, name, policy, reg_style, flavours, leave_out=None):
             if m["api"] == "macro":
                 nx = "next"
                 body = probe + ["    g_next_ptr = (void*)%s;" % nx, "    return %d;" % (100 * mi + di)]
-                L.append("define_method(int, meth%d, (%s)) {\n%s\n}" % (mi, plist, "\n".join(body)))
+                L.append("define_method(int, %s, (%s)) {\n%s\n}" % (m["mname"], plist, "\n".join(body)))
             elif m["api"] == "class":
                 L.append("static M%d::next_type next_%d_%d;" % (mi, mi, di))
                 body = probe + ["    g_next_ptr = (void*)next_%d_%d;" % (mi, di), "    return %d;" % (100 * mi + di)]
                 L.append("static int def_%d_%d(%s) {\n%s\n}" % (mi, di, plist, "\n".join(body)))
                 L.append("static M%d::add_function<def_%d_%d> reg_%d_%d(&next_%d_%d);" % (mi, mi, di, mi, di, mi, di))
-            else:  # definition container with next
-                L.append("struct cont_%d_%d : M%d::next<cont_%d_%d> {" % (mi, di, mi, mi, di))
-                body = probe + ["        g_next_ptr = (void*)next;", "        return %d;" % (100 * mi + di)]
+            else:  # definition container: next from next<> / use_next<>, a next member of its own, or none
+                if cont_flavour in ("next<>", "use_next<>"):
+                    L.append("struct cont_%d_%d : M%d::%s<cont_%d_%d> {" % (mi, di, mi, cont_flavour[:-2], mi, di))
+                else:
+                    L.append("struct cont_%d_%d {" % (mi, di))
+                if cont_flavour == "own-next-member":
+                    L.append("    static M%d::next_type next;" % mi)
+                body = probe + ["        g_next_ptr = (void*)next;" if cont_flavour != "no-next" else "        g_next_ptr = nullptr;",
+                                "        return %d;" % (100 * mi + di)]
                 L.append("    static int fn(%s) {\n%s\n    }\n};" % (plist, "\n".join(body)))
+                if cont_flavour == "own-next-member":
+                    L.append("M%d::next_type cont_%d_%d::next;" % (mi, mi, di))
                 L.append("static M%d::add_definition<cont_%d_%d> reg_%d_%d;" % (mi, mi, di, mi, di))
+        if in_ns:
+            L.append("}" * len(ns_path) + " // namespace " + "::".join(ns_path))
+            L.append("using %s::M%d;" % ("::".join(ns_path), mi))
     if policy == "deferred":
         L += deferred_defs  # defined after every registration object: unknown until update runs
     # ---- main
@@ -523,7 +569,7 @@ def emit(r, rng, name, policy, reg_style, flavours, leave_out=None):
                 else:
                     t = m["ptypes"][p]
                     args.append({"int": "%d" % (7 + p), "double": "%d.5" % p, "const std::string&": "g_str"}[t])
-            call = "M%d::fn(%s)" % (mi, ", ".join(args)) if m["api"] != "macro" or rng.random() < 0.5 else "meth%d(%s)" % (mi, ", ".join(args))
+            call = "M%d::fn(%s)" % (mi, ", ".join(args)) if m["api"] != "macro" or rng.random() < 0.5 else "%s(%s)" % (m["qual"], ", ".join(args))
             tdesc = "m%d(%s)" % (mi, ",".join(cname(c) for c in tup))
             main.append("    {")
             main += pre
@@ -539,7 +585,9 @@ def emit(r, rng, name, policy, reg_style, flavours, leave_out=None):
                     if m["kinds"][i] in ("vp", "cvp", "vsp", "cvsp", "vpc", "vspc"):
                         main.append('        CHECK(st != 0 || g_vptr_ok[%d], "C09:virtual_ptr-received-by-definition-carries-foreign-vtable:%s", "%s: the virtual_ptr passed to the definition for virtual argument %d does not carry the v-table of the pointee\'s class (a call through it would not run what a plain reference runs)");' % (i, m["kinds"][i], tdesc, i))
                 nx = next_of(der, m, d)
-                if nx[0] == "DEF":
+                if m.get("no_next"):
+                    pass  # a container without a next member: nothing to look at
+                elif nx[0] == "DEF":
                     main.append('        CHECK(st != 0 || next_is(%d, %d, g_next_ptr), "C03:next:def-expected", "%s: next of def %d is not def %d");' % (mi, nx[1], tdesc, d, nx[1]))
                 elif nx[0] == "NODEF":
                     main.append('        CHECK(st != 0 || g_next_ptr == (void*)M%d::fn.not_implemented, "C03:next:no_definition-expected", "%s: next of def %d is not the not-implemented error");' % (mi, tdesc, d))
@@ -646,7 +694,7 @@ def emit(r, rng, name, policy, reg_style, flavours, leave_out=None):
     mi_flag = "mi" if any(len(b) > 1 for b in r.bases) else "si"
     vb_flag = "virtual-bases" if any(vb) else "no-virtual-bases"
     combo = "%s/%s/%s/%s/%s/classes=%d/methods=%s%s" % (r.kind, mi_flag, vb_flag, policy, reg_style, r.n,
-                                                        "+".join("%s:%s" % (m["api"], "".join(k[0] for k in m["kinds"])) for m in r.methods),
+                                                        "+".join("%s%s:%s" % (m["api"], "@" + m["qual"] if m["qual"].startswith("ns") else "", "".join(k[0] for k in m["kinds"])) for m in r.methods),
                                                         ("/unregistered=%d" % leave_out) if leave_out is not None else "")
     main.append('    printf("VFB-COMBO %s\\n");' % combo)
     # helper: is g_next_ptr the thunk of definition (mi, di)?  compare with the catalog entry
@@ -810,7 +858,7 @@ def programs(tier, seed, focus=None):
     if focus == "C10":
         pols = ["custom", "deferred"]
     for k in range(n):
-        r = gen_registry(rng, 8 if tier == "quick" else 10)
+        r = gen_registry(rng, 8 if tier == "quick" else 10, focus, k)
         policy = pols[k % len(pols)]
         style = styles[(k // 2) % len(styles)]
         flav = ["clang-asan"] if k % 3 else ["clang-asan-ndebug"]
